@@ -197,6 +197,40 @@ def histories(ctx):
                     ctx.violation('spec', f"gen_params call {specs[i]['seq']} at position {k} of the history {[specs[j]['seq'] for j in seq]} "
                                   f"differs from the same call in a fresh process", {'history': True, 'sequence': seq, 'position': k})
                     break
+        # calls that take their definitions from the shipped libraries and leave the file list at its default (the
+        # programs' own way of calling), different libraries in one process
+        lib_specs = [{'lib': ['martini3'], 'seq': ['PEO:5']}, {'lib': ['martini2'], 'seq': ['PS:3']}, {'lib': ['martini3'], 'seq': ['PEO:2', 'PS:2']}]
+        lref = {}
+        for i, spec in enumerate(lib_specs):
+            code = ("import pathlib\nimport polyply.src.gen_itp as gi\n"
+                    f"gi.gen_params(name='x', outpath=pathlib.Path(r'{wd}')/'lref{i}.itp', lib={spec['lib']!r}, seq={spec['seq']!r})\n")
+            p = subprocess.run(['/venv/bin/python', '-c', code], env=core.env_for_impl(), capture_output=True, text=True, timeout=180)
+            if p.returncode == 0:
+                with open(os.path.join(wd, f'lref{i}.itp')) as fh:
+                    lref[i] = strip_header(fh.read())
+        if len(lref) == len(lib_specs):
+            import polyply.src.gen_itp as gi
+            for hist in ([1, 0], [0, 1, 0], [2, 1, 2]):
+                outs = []
+                for k, i in enumerate(hist):
+                    out = pathlib.Path(wd) / f'l{k}.itp'
+                    sink = io.StringIO()
+                    try:
+                        with contextlib.redirect_stderr(sink), contextlib.redirect_stdout(sink):
+                            gi.gen_params(name='x', outpath=out, lib=list(lib_specs[i]['lib']), seq=list(lib_specs[i]['seq']))
+                        outs.append(strip_header(out.read_text()))
+                    except Exception as exc:  # noqa
+                        outs.append(f'{type(exc).__name__}: {exc}')
+                ctx.case(('library history', tuple(hist)), nontrivial=True, sample={'history_of_calls': [lib_specs[i] for i in hist]})
+                ctx.feature('library_histories')
+                for k, i in enumerate(hist):
+                    if outs[k] != lref[i]:
+                        ctx.violation('spec', f"gen_params -lib {lib_specs[i]['lib']} -seq {lib_specs[i]['seq']} at position {k} of the history "
+                                      f"{[(lib_specs[j]['lib'], lib_specs[j]['seq']) for j in hist]} differs from the same call in a fresh process",
+                                      {'history': True, 'library_history': hist, 'position': k})
+                        break
+        else:
+            ctx.note('library histories skipped: a library call failed in a fresh process')
         # the definitions file is edited between two runs of one process (parameter scan on one path):
         # the later run must see the file as it is now, as a fresh process does
         edited = GP_FF.replace('1 0.33 7000', '1 0.33 7777').replace('1 0.27 8000', '1 0.29 8100')
